@@ -185,7 +185,7 @@ Proof.
     rewrite (Nil1 A), (Nil1 B), (Nil1 (rows p a)), (Nil1 (rows p b)) by (intros r Hr; rewrite E2, !in_app_iff; tauto).
     cbn [app]. rewrite !app_nil_r. now apply kids_block_owner. }
   assert (Pn : p <> n) by (intros ->; contradiction). assert (Tn : target <> n) by (intros ->; contradiction).
-  unfold h_move_do. rewrite Hp.
+  unfold h_move_do. rewrite Hp. apply Rep_touch.
   constructor; cbn [set_forest forest_of reg idx typed calc set_chl set_par hreg hidx htyped hcalc hch hpar htr hinf hall]; try apply R; fold f f1 f2.
   - intros q. unfold upd at 1. destruct (Nat.eqb q target) eqn:Eqt.
     + apply Nat.eqb_eq in Eqt. subst q. rewrite Kt2, <- Epl, <- place_ids_map, Rs. f_equal. rewrite <- Kt1. unfold upd.
